@@ -1,6 +1,7 @@
 import SemVerif.Props.C06
 import SemVerif.Props.C18
 import SemVerif.Lemmas.ExtEvents
+import SemVerif.Lemmas.VisitLock
 /-!
 # Property C19 — extension expressions are opaque leaves evaluated once, in place
 
@@ -57,6 +58,31 @@ theorem C19 (p : Program) : P_C19 p (run p) = [] := by
       dsimp only
       rw [C18_subseq_function]
       rfl
+
+/-- **C19, the evaluated-leaves predicate on accepted programs of the domain** — the leaves
+`Spec/ExtVisit.lean` says the analysis evaluates are the `ExtendedExpression` instructions of the
+function's root stack (for rejected programs this predicate is validated, not proved) -/
+theorem C19_visited (p : Program) (h : acceptedWF p (run p) = true) : P_C19_visited p (run p) = [] := by
+  unfold acceptedWF at h
+  simp only [Bool.and_eq_true] at h
+  obtain ⟨hnp, he⟩ := (accepted_iff _).mp h.1
+  have hchk : ∀ f ∈ p.fnDecls, checkFn p.rglobals f = [] := by
+    intro f hf
+    have hwf := h.2
+    unfold WellFormedB refCheck at hwf
+    dsimp only at hwf
+    rw [List.isEmpty_iff, List.append_eq_nil_iff] at hwf
+    exact flatten_eq_nil_mem hwf.2 _ (List.mem_map.mpr ⟨f, hf, rfl⟩)
+  unfold P_C19_visited
+  rw [if_neg (by simp [hnp]), List.flatMap_eq_nil_iff]
+  rintro ⟨⟨f, b⟩, i⟩ hx
+  have hfb := List.fst_mem_of_mem_zipIdx hx
+  have heq := map_eq_zip (fun b : Block => abstractStack b.context) (specStmts false p.rglobals) _ _ (T2 p hnp he) (f, b) hfb
+  dsimp only at heq ⊢
+  have : b.context.filterMap Instr.extTag = f.extLeaves.map (·.1) := by
+    rw [← evTags_abstractStack, ← heq, evTags_specStmts]
+  rw [this, vl_fn p.rglobals f (hchk f (List.of_mem_zip hfb).1)]
+  simp
 
 /-- a function with extension leaves in a chain, as a call argument and in a nested block -/
 def exampleExt : Program :=
